@@ -256,11 +256,12 @@ theorem second_writer_tears_frame :
 
 /-- **The source has one writer per stream** (regenerated from udf/server.go and udf/agent/agent.go on every run by
 /verif/extract/c19writers): of all goroutine roots of `Server` (every `go` statement, every exported method) exactly
-one reaches a write to `Server.out` — the write loop started by `Start` — and likewise for `Agent.out`; no use of
-either stream field escapes the extractor's rules. This is the hypothesis under which `wireSingle` is the byte
+one reaches a write to `Server.out` — a goroutine the type starts itself (the write loop of `Start`), not a caller's —
+and likewise for `Agent.out`; no use of either stream field escapes the extractor's rules (kind `unknown`). Which `go`
+statement it is does not matter (a reordering of `Start` keeps the theorem). This is the hypothesis under which `wireSingle` is the byte
 stream of the real code. -/
 theorem one_writer_per_stream :
-    Kap.C19.Gen.serverWriters = ["go@Start#1:func"] ∧ Kap.C19.Gen.agentWriters = ["go@Start#2:func"] := by
+    Kap.C19.Gen.serverWriters.map Prod.fst = ["go"] ∧ Kap.C19.Gen.agentWriters.map Prod.fst = ["go"] := by
   decide
 
 /-! ### Non-vacuity: the hypotheses are met by concrete, non-trivial instances -/
